@@ -1159,7 +1159,10 @@ func (c *Conn) writeRequest(ctx *Ctx) error {
 
 	c.bwLck.Lock()
 
-	_, err := fr.WriteTo(c.bw)
+	// The header block is cut into frames the server is willing to receive,
+	// as writeData does for the body. bwLck is held from the HEADERS frame to
+	// the last CONTINUATION, so no other writer gets in between them.
+	err := writeHeaderBlock(c.bw, fr, c.frameStep())
 	if err == nil {
 		err = c.bw.Flush()
 	}
@@ -1443,13 +1446,22 @@ func (c *Conn) closeBodyStream(pb *pendingBody) {
 	_ = pb.ctx.Request.CloseBodyStream()
 }
 
-// writeData splits body into DATA frames no larger than the server is willing
-// to receive. The caller holds bwLck.
-func (c *Conn) writeData(id uint32, body []byte, end bool) (err error) {
+// frameStep is the largest frame payload the server is willing to receive: its
+// SETTINGS_MAX_FRAME_SIZE, or the size every peer accepts when what we hold is
+// out of range.
+func (c *Conn) frameStep() int {
 	step := int(atomic.LoadUint32(&c.maxFrameSize))
 	if step <= 0 || step > int(maxFrameSize) {
 		step = int(defaultDataFrameSize)
 	}
+
+	return step
+}
+
+// writeData splits body into DATA frames no larger than the server is willing
+// to receive. The caller holds bwLck.
+func (c *Conn) writeData(id uint32, body []byte, end bool) (err error) {
+	step := c.frameStep()
 
 	fh := AcquireFrameHeader()
 	defer ReleaseFrameHeader(fh)
